@@ -7,4 +7,4 @@ THEOREMS = ["C04_owner_and_member_gates", "C04_single_owner_reachable"]
 
 
 def run(tier, replay=None):
-    return srvprops.run(PROP, THEOREMS, tier, replay, extra_gen=lambda r, th: sl.kick_histories(r, th) + sl.retry_identify_histories(r, th), rule_note=' plus retried-IDENTIFY histories (a connection refused under a live user\'s name identifies under a free one and then administers / observes that user\'s channel: must be refused as the outsider it is); plus directed removal histories: an owner removes a member with LEAVE on_behalf, then drops / fills its own limit / the removed member re-joins up to its limit / a namesake reconnects and probes ownership; ends with the CHANNELS-vs-MEMBERS audit (members must be alive)')
+    return srvprops.run(PROP, THEOREMS, tier, replay, extra_gen=lambda r, th: sl.kick_histories(r, th) + sl.retry_identify_histories(r, th) + sl.onbehalf_drop_histories(r, th), rule_note=' plus on-behalf-then-drop histories (a user joined on behalf by the owner drops its connection: it is gone from the channel, ownership only goes to live members, a namesake inherits nothing; the CHANNELS-vs-MEMBERS audit counts here); plus retried-IDENTIFY histories (a connection refused under a live user\'s name identifies under a free one and then administers / observes that user\'s channel: must be refused as the outsider it is); plus directed removal histories: an owner removes a member with LEAVE on_behalf, then drops / fills its own limit / the removed member re-joins up to its limit / a namesake reconnects and probes ownership; ends with the CHANNELS-vs-MEMBERS audit (members must be alive)')
